@@ -162,6 +162,12 @@ class BaseWorld:
         t0 = time.time()
         skip = getattr(prog, 'skip_inits', None)
         st = run_inits(ex, st)
+        # the two sentinel errors of package context (its init is not executed): distinct non-nil error values
+        for i, gname in enumerate(('context.Canceled', 'context.DeadlineExceeded')):
+            g = ex.globals.get(gname)
+            if g is not None:
+                oid = ex.new_obj(st, ('error', gname), None)
+                st.heap[g.obj] = symgo.Iface('error#' + gname, symgo.Ptr(oid, ()))
         self.init_s = time.time() - t0
         self.ex = ex
         self.st = st
